@@ -36,6 +36,11 @@ fn nid(w: &W, k: &str) -> NodeId {
         "server" => ObjectId::Server.into(),
         "missing" => NodeId::new(2, "svc-never-exists"),
         "same" => NodeId::new(2, format!("svc-var-{}", w.tag)),
+        // reference types of the standard hierarchy (the services accept only standard reference type ids):
+        // HasEventSource -HasSubtype-> HasNotifier
+        "rt1" => ReferenceTypeId::HasEventSource.into(),
+        "rt2" => ReferenceTypeId::HasNotifier.into(),
+        "dt1" | "dt2" | "vardt" => NodeId::new(2, format!("svc-{}-{}", k, w.tag)),
         _ => NodeId::null(),
     }
 }
@@ -52,8 +57,10 @@ fn attr(k: &str) -> u32 {
 fn range(k: &str) -> UAString {
     if k == "none" { UAString::null() } else { UAString::from(k) }
 }
-fn reft(k: &str) -> NodeId {
+fn reft(w: &W, k: &str) -> NodeId {
     match k {
+        "HasSubtype" => ReferenceTypeId::HasSubtype.into(),
+        "rt1" => nid(w, "rt1"),
         "Organizes" => ReferenceTypeId::Organizes.into(),
         "HasComponent" => ReferenceTypeId::HasComponent.into(),
         "missing" => NodeId::new(2, "no-such-reference-type"),
@@ -160,7 +167,7 @@ fn build(w: &mut W, r: &Value) -> SupportedMessage {
             WriteRequest { request_header: h, nodes_to_write: Some(vec![WriteValue { node_id: nid(w, &s("node")), attribute_id: attr(&s("attr")), index_range: range(&s("range")), value: DataValue::new_now(v) }]) }.into()
         }
         "Browse" => BrowseRequest { request_header: h, view: ViewDescription { view_id: NodeId::null(), timestamp: DateTime::null(), view_version: 0 }, requested_max_references_per_node: geti(r, "max") as u32,
-            nodes_to_browse: Some(vec![BrowseDescription { node_id: nid(w, &s("node")), browse_direction: BrowseDirection::Both, reference_type_id: reft(&s("ref")), include_subtypes: true, node_class_mask: 0, result_mask: 0x3f }]) }.into(),
+            nodes_to_browse: Some(vec![BrowseDescription { node_id: nid(w, &s("node")), browse_direction: BrowseDirection::Both, reference_type_id: reft(w, &s("ref")), include_subtypes: true, node_class_mask: 0, result_mask: 0x3f }]) }.into(),
         "BrowseNext" => {
             let cp = match gets(r, "cp") { "null" => ByteString::null(), "bogus" => ByteString::from(vec![9u8; 8]), _ => w.cp.clone() };
             BrowseNextRequest { request_header: h, release_continuation_points: getb(r, "release"), continuation_points: Some(vec![cp]) }.into()
@@ -174,6 +181,7 @@ fn build(w: &mut W, r: &Value) -> SupportedMessage {
                 "nullname" => Some(vec![el(hier.clone(), QualifiedName::null())]),
                 "one" => Some(vec![el(hier.clone(), QualifiedName::from("Server"))]),
                 "customref" => Some(vec![el(NodeId::new(2, "custom"), QualifiedName::from("x"))]),
+                "rt1" => Some(vec![el(nid(w, "rt1"), QualifiedName::from("x"))]),
                 _ => Some((0..40).map(|_| el(hier.clone(), QualifiedName::from("Objects"))).collect()),
             };
             TranslateBrowsePathsToNodeIdsRequest { request_header: h, browse_paths: Some(vec![BrowsePath { starting_node: nid(w, &s("node")), relative_path: RelativePath { elements } }]) }.into()
@@ -207,19 +215,19 @@ fn build(w: &mut W, r: &Value) -> SupportedMessage {
             };
             let td: ExpandedNodeId = match gets(r, "typedef") { "ok" => if class == NodeClass::Variable { VariableTypeId::BaseDataVariableType.into() } else { ObjectTypeId::BaseObjectType.into() }, "missing" => NodeId::new(2, "no-type").into(), _ => ExpandedNodeId::null() };
             let rid: ExpandedNodeId = match gets(r, "rid") { "null" => ExpandedNodeId::null(), k => nid(w, k).into() };
-            AddNodesRequest { request_header: h, nodes_to_add: Some(vec![AddNodesItem { parent_node_id: nid(w, &s("parent")).into(), reference_type_id: reft(&s("ref")), requested_new_node_id: rid, browse_name: name, node_class: class, node_attributes: attrs, type_definition: td }]) }.into()
+            AddNodesRequest { request_header: h, nodes_to_add: Some(vec![AddNodesItem { parent_node_id: nid(w, &s("parent")).into(), reference_type_id: reft(w, &s("ref")), requested_new_node_id: rid, browse_name: name, node_class: class, node_attributes: attrs, type_definition: td }]) }.into()
         }
         "AddReferences" => {
-            let cls = match gets(r, "cls") { "Variable" => NodeClass::Variable, "Object" => NodeClass::Object, _ => NodeClass::Unspecified };
+            let cls = match gets(r, "cls") { "Variable" => NodeClass::Variable, "Object" => NodeClass::Object, "ReferenceType" => NodeClass::ReferenceType, "DataType" => NodeClass::DataType, _ => NodeClass::Unspecified };
             let src = nid(w, &s("src"));
             let dst = if gets(r, "dst") == "same" { src.clone() } else { nid(w, &s("dst")) };
-            AddReferencesRequest { request_header: h, references_to_add: Some(vec![AddReferencesItem { source_node_id: src, reference_type_id: reft(&s("ref")), is_forward: getb(r, "fwd"), target_server_uri: UAString::null(), target_node_id: dst.into(), target_node_class: cls }]) }.into()
+            AddReferencesRequest { request_header: h, references_to_add: Some(vec![AddReferencesItem { source_node_id: src, reference_type_id: reft(w, &s("ref")), is_forward: getb(r, "fwd"), target_server_uri: UAString::null(), target_node_id: dst.into(), target_node_class: cls }]) }.into()
         }
         "DeleteNodes" => DeleteNodesRequest { request_header: h, nodes_to_delete: Some(vec![DeleteNodesItem { node_id: nid(w, &s("node")), delete_target_references: getb(r, "tr") }]) }.into(),
         "DeleteReferences" => {
             let src = nid(w, &s("src"));
             let dst = if gets(r, "dst") == "same" { src.clone() } else { nid(w, &s("dst")) };
-            DeleteReferencesRequest { request_header: h, references_to_delete: Some(vec![DeleteReferencesItem { source_node_id: src, reference_type_id: reft(&s("ref")), is_forward: getb(r, "fwd"), target_node_id: dst.into(), delete_bidirectional: getb(r, "bi") }]) }.into()
+            DeleteReferencesRequest { request_header: h, references_to_delete: Some(vec![DeleteReferencesItem { source_node_id: src, reference_type_id: reft(w, &s("ref")), is_forward: getb(r, "fwd"), target_node_id: dst.into(), delete_bidirectional: getb(r, "bi") }]) }.into()
         }
         "CreateSubscription" => CreateSubscriptionRequest { request_header: h, requested_publishing_interval: num(&s("itv")), requested_lifetime_count: cnt(&s("lt")), requested_max_keep_alive_count: cnt(&s("ka")), max_notifications_per_publish: 0, publishing_enabled: true, priority: 0 }.into(),
         "ModifySubscription" => ModifySubscriptionRequest { request_header: h, subscription_id: sub_id(w, &s("sub")).map(|v| v[0]).unwrap_or(0), requested_publishing_interval: num(&s("itv")), requested_lifetime_count: 30, requested_max_keep_alive_count: 10, max_notifications_per_publish: 0, priority: 0 }.into(),
@@ -297,6 +305,11 @@ fn setup(srv: &Srv) -> Option<W> {
         let _ = ObjectBuilder::new(&c2, format!("c2{}", tag), "c2").insert(&mut a);
         a.insert_reference(&c1, &c2, ReferenceTypeId::HasComponent);
         a.insert_reference(&c2, &c1, ReferenceTypeId::HasComponent);
+        // per-session data type nodes (not linked under the standard hierarchy, so that what a case does to them stays in the case)
+        let _ = DataTypeBuilder::new(&nid(&w, "dt1"), format!("dt1{}", tag), "dt1").insert(&mut a);
+        let _ = DataTypeBuilder::new(&nid(&w, "dt2"), format!("dt2{}", tag), "dt2").insert(&mut a);
+        a.insert_reference(&nid(&w, "dt1"), &nid(&w, "dt2"), ReferenceTypeId::HasSubtype);
+        let _ = VariableBuilder::new(&nid(&w, "vardt"), format!("vardt{}", tag), "").data_type(nid(&w, "dt1")).organized_by(&obj).value(1i32).writable().insert(&mut a);
     }
     let h = w.c.header();
     if let SupportedMessage::CreateSubscriptionResponse(r) = w.c.call1(CreateSubscriptionRequest { request_header: h, requested_publishing_interval: 100.0, requested_lifetime_count: 30, requested_max_keep_alive_count: 10, max_notifications_per_publish: 0, publishing_enabled: true, priority: 0 }.into()) {
@@ -369,5 +382,12 @@ pub fn run_case(case: &Value, out: &mut Obs) {
             }
         }
         let _ = guard(|| w.c.close());
+        // what a case did to the standard reference type hierarchy is undone (the server is shared by the cases of a process)
+        let _ = guard(|| {
+            let a = srv.server.address_space();
+            let mut a = a.write();
+            let (rt1, rt2): (NodeId, NodeId) = (ReferenceTypeId::HasEventSource.into(), ReferenceTypeId::HasNotifier.into());
+            let _ = a.delete_reference(&rt2, &rt1, ReferenceTypeId::HasSubtype);
+        });
     });
 }
